@@ -980,7 +980,7 @@ Record Ready (st : tstate) (pd : doc) : Prop := {
                         /\ forall e n, In (e, n) pn -> aget (hexid e) (routers st) = Some (Some n) }.
 
 Definition case_ok (dx : doc * list bytes) : bool :=
-  wf_doc (fst dx) && negb (doc_p_without_w (fst dx)) && negb (doc_dup_authority_nick (fst dx))
+  wf_doc (fst dx) && negb (doc_dup_authority_nick (fst dx))
   && extra_ok (fst dx) (snd dx).
 
 Lemma ready_of_inv cl O h0 st pn :
@@ -1010,12 +1010,12 @@ Proof.
 Qed.
 
 Lemma case_ok_parts d extra : case_ok (d, extra) = true ->
-  forallb wf_entry d = true /\ NoDup (map e_id d) /\ existsb p_without_w d = false
+  forallb wf_entry d = true /\ NoDup (map e_id d)
   /\ doc_dup_authority_nick d = false /\ extra_ok d extra = true.
 Proof.
   unfold case_ok, wf_doc. cbn [fst snd]. intros H.
   repeat match type of H with (_ && _) = true => let H' := fresh "K" in apply andb_true_iff in H as [H H'] end.
-  apply negb_true_iff in K1, K0. apply nodupb_NoDup in K2. auto.
+  apply negb_true_iff in K0. apply nodupb_NoDup in K1. auto.
 Qed.
 
 Lemma dup_auth_nodup d : doc_dup_authority_nick d = false -> NoDup (map e_nick (filter (has_flag F_AUTHORITY) d)).
@@ -1027,7 +1027,7 @@ Lemma event_doc_ok st pd d extra (pv : view) :
               /\ view_ok d (view_of st' (doc_keys d ++ extra) None) = true
               /\ c_identity pd pv d (view_of st' (doc_keys d ++ extra) None) = true.
 Proof.
-  intros HR Hpv Hc. destruct (case_ok_parts d extra Hc) as [W [Hd [Hf [Ha Hx]]]].
+  intros HR Hpv Hc. destruct (case_ok_parts d extra Hc) as [W [Hd [Ha Hx]]].
   unfold event_doc.
   set (st0 := {| heap := heap st; routers := []; old_routers := routers st; all_routers := []; by_hash := [];
                  by_name := []; guards := []; auths := []; parser := parser st |}).
@@ -1039,7 +1039,7 @@ Proof.
   assert (Hfeed : feed (parser st0) (render_doc d ++ [OKL]) =
                   ({| ps := waiting_r; attrs := attrs (doc_end (parser st) d) |}, doc_out None d, None)).
   { cbn [st0 parser]. destruct (parser st) as [q a]. cbn [ps attrs] in Hq, Hat. subst a.
-    rewrite (feed_doc d q None [OKL] (wf_doc_parts d W) Hq Hf).
+    rewrite (feed_doc d q None [OKL] (wf_doc_parts d W) Hq).
     cbn [feed]. destruct (doc_end {| ps := q; attrs := None |} d) as [q2 a2]. unfold OKL. rewrite step_ok.
     cbn [attrs]. now rewrite app_nil_r. }
   pose proof (doc_out_all d (parser st)) as Hall. rewrite Hat in Hall. cbn [emit_pending app] in Hall.
@@ -1063,7 +1063,7 @@ Lemma boot_doc_ok d extra : case_ok (d, extra) = true ->
   exists st', boot_doc tinit (render_doc d) = Some (st', None) /\ Ready st' d
               /\ view_ok d (view_of st' (doc_keys d ++ extra) None) = true.
 Proof.
-  intros Hc. destruct (case_ok_parts d extra Hc) as [W [Hd [Hf [Ha Hx]]]].
+  intros Hc. destruct (case_ok_parts d extra Hc) as [W [Hd [Ha Hx]]].
   pose proof (inv_empty [] [] pinit) as HI0. change (Inv false [] 0 tinit []) in HI0.
   destruct (create_all_inv [] 0 ocond_nil d tinit [] HI0 W Hd (dup_auth_nodup d Ha)) as [stF [pn [Ec [HI [Hm Hp]]]]].
   cbn [app] in HI.
@@ -1071,7 +1071,7 @@ Proof.
                   (doc_end {| ps := waiting_r; attrs := None |} d, doc_out None d, None)).
   { cbn [tinit parser]. unfold pinit, NSALL. cbn [feed]. change md_initial with waiting_r. rewrite step_nsall.
     rewrite <- (app_nil_r (render_doc d)).
-    rewrite (feed_doc d waiting_r None [] (wf_doc_parts d W) eq_refl Hf).
+    rewrite (feed_doc d waiting_r None [] (wf_doc_parts d W) eq_refl).
     cbn [feed app]. destruct (doc_end _ d). now rewrite app_nil_r. }
   pose proof (doc_out_all d {| ps := waiting_r; attrs := None |}) as Hall. cbn [attrs emit_pending app] in Hall.
   unfold boot_doc. rewrite (take_lines_gen tinit _ _ _ Hfeed). rewrite Hall, Ec.
